@@ -34,9 +34,18 @@ def render(t, uni, backend, style=None, md=None):
             return "%s.%s(%s)" % (src, name, ", ".join(args))
         return "%s(%s)" % (name, ", ".join([src] + args))
 
+    has_meta = _has_kind(t, "Meta")
+
     def r(t):
         k = t["k"]
         ch = t["ch"]
+        if k == "Meta":
+            s = r(ch[0])
+            for m in reversed(md):
+                s = "MetaData(%s, %r)" % (s, m)
+            return s
+        if k == "DS" and has_meta:
+            return 'EventDataset("vp")'
         if k == "DS":
             s = 'EventDataset("vp")'
             for m in reversed(md):
@@ -146,6 +155,10 @@ def bad_metadata(which, backend, b):
         del d["element_type"]
         return d
     raise ValueError("unknown bad metadata variant " + which)
+
+
+def _has_kind(t, kind):
+    return t["k"] == kind or any(_has_kind(c, kind) for c in t["ch"])
 
 
 def compact(t):
